@@ -196,7 +196,7 @@ func stressCond(cfg CondStress, budget time.Duration) (*stressFail, stressStats)
 	ended := make(chan struct{})
 	go func() { wg.Wait(); close(ended) }()
 	hung := false
-	t := time.NewTimer(10 * time.Second)
+	t := time.NewTimer(120 * time.Second) // generous backstop: a loaded machine must not turn a slow round into a verdict
 	select {
 	case <-ended:
 	case <-t.C:
